@@ -53,6 +53,9 @@ def inst_line(g, addr, mnems=MNEMS):
         line["annot"] = None
     if g.chance(0.15):
         line["comment"] = g.pick(["0x404040 <x>", "comment", "4010 <y+0x8>"])
+    if g.chance(0.15):
+        # binutils <= 2.38 pads every mnemonic to a fixed column, operands or not: blanks at the end of the line
+        line["trail"] = g.int(1, 6)
     return line, nb
 
 
@@ -107,6 +110,8 @@ def presentation_edit(g, lines):
             l["annot"] = g.pick([None, "sym", "other+0x4"])
         if g.chance(0.4):
             l["comment"] = g.pick([None, "a comment", "0x1234 <z>"])
+        if g.chance(0.3):
+            l["trail"] = g.int(0, 7)
         if g.chance(0.15):
             out.append({"k": "label", "addr": "%016x" % int(l["addr"], 16), "name": "lbl"})
         if g.chance(0.1):
